@@ -122,7 +122,7 @@ MayRaise(e, nm) ==
 Unexpected(e) == {nm \in DOMAIN e.x : ~MayRaise(e, nm)}
 
 \* the sites of all failing checks, joined by ";"
-AllFail(cs) == JoinSet({cs[k][1] : k \in {kk \in 1..Len(cs) : ~cs[kk][2]}})
+AllFail(cs) == JoinSet(FailsOf(cs, ""))
 
 IsolatedNode(e) == \E k \in 1..e.n : \A j \in 1..e.n : e.A[k][j] = 0 /\ e.A[j][k] = 0
 Tags(e) == e.blk \o (IF e.directed = 1 THEN ",directed" ELSE "")
